@@ -512,3 +512,64 @@ pub fn check_visual_call(cfg: &Cfg, scene: u64, epoch: usize, dets: &[Det], recs
     }
     VVerdict::Ok { claims: ev.claims.len(), contests: ev.contests, visual_attachments, positional_checked, positional_nontrivial }
 }
+
+// ------------------------------------------------------------------------------------------------
+// "explain divergence": is the outcome of one call a valid (gated, optimal) association per the references?
+
+pub enum Judgement {
+    Valid,
+    Undecidable(&'static str),
+    Invalid(String, Value),
+}
+
+pub fn judge_call(cfg: &Cfg, scene: u64, epoch: usize, dets: &[Det], recs: &[Rec], pre: &[LiveTrack]) -> Judgement {
+    if recs.len() != dets.len() {
+        return Judgement::Invalid("record-count".into(), json!({"dets": dets.len(), "records": recs.len()}));
+    }
+    if cfg.kind.is_visual() {
+        match check_visual_call(cfg, scene, epoch, dets, recs, pre) {
+            VVerdict::Ok { .. } => Judgement::Valid,
+            VVerdict::Undecidable(w) => Judgement::Undecidable(w),
+            VVerdict::Violation(s, d) => Judgement::Invalid(s, d),
+        }
+    } else {
+        let ids: std::collections::HashSet<u64> = pre.iter().map(|t| t.id).collect();
+        let assigned: Vec<Option<u64>> = recs.iter().map(|r| if ids.contains(&r.id) { Some(r.id) } else { None }).collect();
+        let cont: std::collections::HashSet<u64> = assigned.iter().flatten().cloned().collect();
+        let cands: Vec<&LiveTrack> = pre.iter().filter(|t| t.scene == scene && (epoch <= t.last_epoch + cfg.max_idle || cont.contains(&t.id))).collect();
+        // a continuation of a track outside the scene is invalid per se
+        for a in assigned.iter().flatten() {
+            if let Some(t) = pre.iter().find(|t| t.id == *a) {
+                if t.scene != scene {
+                    return Judgement::Invalid("continued-track-of-another-scene".into(), json!({"track": a, "track_scene": t.scene, "scene": scene}));
+                }
+            }
+        }
+        match check_positional(cfg, scene, epoch, &dets.iter().map(|d| d.b).collect::<Vec<_>>(), &assigned, &cands) {
+            Verdict::Ok { .. } => Judgement::Valid,
+            Verdict::Undecidable(w) => Judgement::Undecidable(w),
+            Verdict::Skipped(w) => Judgement::Undecidable(w),
+            Verdict::Violation(s, d) => Judgement::Invalid(s, d),
+        }
+    }
+}
+
+/// grouping-only comparison of two record lists under an incrementally built id bijection
+pub fn same_grouping(a: &[Rec], b: &[Rec], map: &std::collections::HashMap<u64, u64>, rev: &std::collections::HashMap<u64, u64>) -> bool {
+    if a.len() != b.len() {
+        return false;
+    }
+    let mut m = map.clone();
+    let mut r = rev.clone();
+    for (x, y) in a.iter().zip(b.iter()) {
+        match (m.get(&x.id), r.get(&y.id)) {
+            (None, None) => {
+                m.insert(x.id, y.id);
+                r.insert(y.id, x.id);
+            }
+            (Some(p), Some(q)) if *p == y.id && *q == x.id => {}
+            _ => return false,
+        }
+    }
+    true
+}
